@@ -46,7 +46,9 @@ def site_desc(view, s):
 def break_payload_pred(view, s):
     """predicate on terms: mentions the Break payload of site s"""
     def pred(t):
-        return t[0] == "field" and t[2] == "Break" and isinstance(t[1], tuple) and t[1][0] == "call" and t[1][1] == s.bb
+        # (on the Break edge the answer as a whole - `stopped => take_cf_content(stopped)` - is the stopped error as well)
+        return (t[0] == "field" and t[2] == "Break" and isinstance(t[1], tuple) and t[1][0] == "call" and t[1][1] == s.bb) or \
+            (t[0] == "call" and t[1] == s.bb)
     return pred
 
 
